@@ -279,6 +279,14 @@ def run(ck):
                 stats["model_roundtrip_expected"] = stats.get("model_roundtrip_expected", 0) + 1
                 if fl["roundtrip"] != "1":
                     problems.append("model: clean, tags ok, but the token-level round trip fails")
+            if fl.get("hyps") == "1":
+                # the hypotheses of C17_roundtrip_partial hold for this parsed tree: the theorem applies
+                stats["theorem_applies"] = stats.get("theorem_applies", 0) + 1
+                if fl["roundtrip"] != "1":
+                    problems.append("model: rt_hyps holds but the token-level round trip fails (contradicts the theorem)")
+            elif fl["clean"] == "1" and fl["tags_ok"] == "1" and nel > 0:
+                # parsed, clean, tags ok - and still outside the theorem's shape conditions?
+                stats["clean_but_shape_fails"] = stats.get("clean_but_shape_fails", 0) + 1
             if fl["clean"] != "1" and ok and not problems:
                 stats["flagged_but_roundtrips"] = stats.get("flagged_but_roundtrips", 0) + 1
             if fl["clean"] == "1" and fl["tags_ok"] == "1" and not ok and not has_cr_or_nul(tree1) and plain_uris(tree1) \
